@@ -93,6 +93,7 @@ pub fn run_l1(prog: &Program, cfg: RunCfg) -> Trace {
     let nclients = prog.clients.len();
     let nact = prog.actors.len();
     // slot layout: [0, nact) Addr of actor a; [nact, 2 nact) OwningAddr of actor a
+    let mut reaper: Vec<(u32, Box<dyn crate::dynh::DynWeak>)> = vec![];
     let mut tables: Vec<Vec<Slot>> =
         (0..nclients).map(|_| (0..2 * nact).map(|_| Slot::empty()).collect()).collect();
     for (ai, d) in prog.actors.iter().enumerate() {
@@ -101,6 +102,7 @@ pub fn run_l1(prog: &Program, cfg: RunCfg) -> Trace {
         }
         let sp = spawn_decl(d);
         if let Some(a) = &sp.addr {
+            reaper.push((d.tag, a.downgrade()));
             for h in &d.holders {
                 if let Some(t) = tables.get_mut(*h as usize) {
                     t[ai] = Slot::mk(H::Addr(a.clone_box()), d.tag, *h);
@@ -128,8 +130,26 @@ pub fn run_l1(prog: &Program, cfg: RunCfg) -> Trace {
         Outcome::Horizon => "clients_stuck_horizon",
         Outcome::StepCap => "step_cap",
     }));
+    // reap: if clients are stuck (e.g. awaiting an actor nobody stops), stop every actor through the
+    // weak handles kept at setup and give the clients another chance to finish
+    if clients_outcome != Outcome::Until && clients_outcome != Outcome::StepCap {
+        log::log(K::Phase("reap"));
+        for (tag, w) in reaper.iter_mut() {
+            let ok = w.try_stop().is_ok();
+            log::log(K::Effect { msg: 0, actor: u32::MAX, step: 0, what: "reap_stop", arg: *tag as u64, ok });
+        }
+        let e3 = Arc::clone(&env);
+        let now = exec.sh.now();
+        let o = exec.run(now + horizon, cfg.max_steps, move || e3.all_done());
+        log::log(K::Phase(match o {
+            Outcome::Until => "reap_clients_done",
+            _ => "reap_clients_stuck",
+        }));
+    }
+    drop(reaper);
     // settle: let actors drain (bounded by the horizon)
-    let settle_outcome = exec.run(horizon, cfg.max_steps, || false);
+    let now = exec.sh.now();
+    let settle_outcome = exec.run(now + horizon, cfg.max_steps, || false);
     log::log(K::Phase("settled"));
     // cleanup: unregister + stop services and brokers, then run to quiescence
     let topics = prog.topics.clone();
